@@ -141,6 +141,34 @@ pub struct HistCase {
     pub steps: Vec<Case>,
 }
 
+fn judge_cli_nonblocking(c: &CliCase, cls: &mut Classifier) -> Verdict {
+    use crate::cli::Invocation;
+    let m = crate::refimpl::unhex(&c.msg_hex).unwrap_or_default();
+    let want = format!("0x{}\n", hex_lower(&eip191(&m)));
+    let inv = Invocation::new(&["hash", "message", "-"]).stdin(&m);
+    let Some(out) = crate::cli::with_nonblocking_stdin(|| crate::cli::run_global(&inv)) else { return Ok(()) };
+    if out.timed_out {
+        cls.label("timed-out");
+        return Ok(());
+    }
+    if out.panicked() || out.hang.is_some() {
+        return fail("a digest or an ordinary error", out.describe(), format!("`hash message -` with standard input in non-blocking mode, {} bytes written in two parts", m.len()));
+    }
+    if out.code == Some(0) {
+        cls.label("nonblocking-succeeded");
+        if out.stdout_str() != want {
+            return fail(want, out.stdout_str(), format!("`hash message -` with standard input in non-blocking mode, message of {} bytes 0x{} written in two parts with a pause: exit 0 must come with the digest of the whole message", m.len(), crate::engine::truncate(&c.msg_hex, 120)));
+        }
+    } else {
+        cls.label("nonblocking-gave-up");
+        if !out.stdout.is_empty() {
+            return fail("empty stdout on error", out.stdout_str(), "`hash message -` with standard input in non-blocking mode: error exit with output");
+        }
+    }
+    cls.nontrivial(&("nonblocking", c.msg_hex.as_str()));
+    Ok(())
+}
+
 fn gen_history(tape: Vec<u8>) -> HistCase {
     let mut u = crate::gen::U::new(&tape);
     let len = match u.below(8) {
@@ -307,6 +335,16 @@ pub fn run(ctx: &mut Ctx) {
             cc.push(CliCase { msg_hex: hex_lower(t), stdin: true });
         }
         ctx.run_cases("cli-message", &cc, judge_cli);
+        // standard input left in non-blocking mode by the parent, the message arriving in two parts: the command
+        // may give up with an ordinary error (EAGAIN), but a digest it prints is the digest of the whole message
+        let mut np = Prng::new(ctx.sub_seed("nonblocking", 0));
+        let nb: Vec<CliCase> = (0..ctx.tier.pick(40, 600))
+            .map(|i| {
+                let len = [2usize, 3, 10, 100, 1000, 5000, 70_000][i % 7] + np.below(50) as usize;
+                CliCase { msg_hex: hex_lower(&np.bytes(len)), stdin: true }
+            })
+            .collect();
+        ctx.run_cases("nonblocking-stdin", &nb, judge_cli_nonblocking);
         let mut tp = Prng::new(ctx.sub_seed("tty", 0));
         let mut tc = vec![];
         for i in 0..ctx.tier.pick(24, 300) {
@@ -348,6 +386,7 @@ pub fn replay(sub: &str, case: &Value) -> Option<Verdict> {
         "sweep" | "pow10" | "random" => Some(replay_as::<Case>(case, judge)),
         "cli-message" => Some(replay_as::<CliCase>(case, judge_cli)),
         "history" => Some(replay_as::<HistCase>(case, judge_history)),
+        "nonblocking-stdin" => Some(replay_as::<CliCase>(case, judge_cli_nonblocking)),
         "terminal" => Some(replay_as::<TtyCase>(case, judge_tty)),
         _ => None,
     }
